@@ -399,7 +399,7 @@ type c03scaleGen struct {
 var c03scaleTails = []string{"x := 1\nx", "x := \"\\400\"", "x /;", "x := undefinedName", "y := 0; x := 1/y", "func f() int { y := 0; return 1/y }; func g() int { return f() }; g()", "var m map[string]int; m[\"k\"] = 1", "panic(\"p\")"}
 var c03padKinds = []string{"newlines", "spaces", "block-comment", "line-comment", "crlf", "tabs", "semicolons"}
 var c03bigKinds = []string{"paren", "block", "slicetype", "literal", "locals", "globals", "stmts", "args", "ident", "string", "rawstring", "digits", "params", "fields", "methods", "mapentries", "results", "funcs", "returns-of", "sprint-args", "string-concat-run"}
-var c03quadKinds = []string{"call", "chain", "neg", "else", "not", "and-chain", "deref", "closure-nest", "index-nest", "index-chain", "select-chain", "if-else-if", "cases"}
+var c03quadKinds = []string{"call", "chain", "neg", "else", "not", "and-chain", "deref", "closure-nest", "index-nest", "index-chain", "select-chain", "if-else-if", "cases", "compl", "ptr-type"}
 
 func (g c03scaleGen) source() string {
 	n := g.N
@@ -529,6 +529,10 @@ func (g c03scaleGen) source() string {
 		return "type T struct { n int }\nt := &T{n: 1}\nx := (" + rep("*", n) + "t).n\nx"
 	case "closure-nest":
 		return "f := " + rep("func() int { return ", n) + "1" + rep(" }()", n) + "\nf"
+	case "compl":
+		return "x := " + rep("^", n) + "1\nx"
+	case "ptr-type":
+		return "var x " + rep("*", n) + "int\nprintln(x == nil)"
 	case "index-nest":
 		return "x := []int{0}\ny := " + rep("x[", n) + "0" + rep("]", n) + "\ny"
 	}
@@ -573,6 +577,10 @@ func c03scaleSpace(thorough bool) c03space {
 		if k != "cases" { // flat, but quadratic to compile
 			deep = append(deep, c03scaleGen{k, 1 << 20, 0})
 		}
+	}
+	// short units four million deep (4-8 MB of source): every recursion of the parser must be counted
+	for _, k := range []string{"not", "neg", "compl", "deref", "ptr-type", "slicetype", "paren", "block"} {
+		deep = append(deep, c03scaleGen{k, 1 << 22, 0})
 	}
 	return c03space{"scale", nflat + len(deep), func(i int) c03case {
 		if i >= nflat {
